@@ -1586,7 +1586,25 @@ class Interp(object):
         return res
 
     def s_ClassDef(self, st, node):
-        st.frames[-1][node.name] = ("localclass", node.name)
+        """a class defined inside a function: indexed on first use like a module-level class (its methods see the module's names, not the
+        enclosing function's locals - a method that needs one ends in 'no verdict' through the unresolved name)"""
+        ci = getattr(node, "_local_ci", None)
+        if ci is None and self.cur_func is not None and getattr(self.cur_func, "module", None) is not None \
+                and not node.keywords and not node.decorator_list:
+            from .index import ClassInfo as _CI
+            try:
+                ci = _CI(self.cur_func.module, node)
+                self.ix._scan_class(self.cur_func.module, ci)
+                for b in node.bases:
+                    r = self.ix.resolve_expr(self.cur_func.module, b)
+                    ci.bases.append(r if isinstance(r, _CI) else (unparse(b)))
+                node._local_ci = ci
+            except Exception:       # noqa
+                ci = None
+        if ci is not None:
+            st.frames[-1][node.name] = ClassVal(ci)
+        else:
+            st.frames[-1][node.name] = ("localclass", node.name)
         return [(st, "next", None)]
 
     # ------------------------------------------------------------------
